@@ -302,6 +302,7 @@ class SafeLearner(Learner):
                     self._method[key] = 2
                     return out
                 except Exception as inner_e:
+                    if inner_e is outer_e: raise #the very same exception object: chaining it to itself would give it a cyclic __cause__
                     raise inner_e from outer_e
 
     def _parse_pred(self, context, actions, pred):
